@@ -12,6 +12,6 @@ VARIABLE ty
 Init == ty \in Types
 Next == UNCHANGED ty
 Export == Emit => \A v \in G!Values(ty) :
-             PrintT(ToJson([type |-> ty, enc |-> G!Encode(ty, v), flat |-> G!FlattenV(ty, v)]))
+             PrintT(ToJson([type |-> ty, val |-> v, enc |-> G!Encode(ty, v), flat |-> G!FlattenV(ty, v)]))
 Count == Cardinality(G!Values(ty)) >= 1
 =============================================================================
